@@ -2,7 +2,7 @@
    list, prod, unit, sumbool map to OCaml natives; N/Z/positive/byte stay Coq datatypes. *)
 From Coq Require Import Extraction ExtrOcamlBasic.
 From ChitchatModel Require Import Base SMap Ids Params Bytes NodeState Stream DeltaWire Message
-  Cluster FD Chitchat World Monitors.
+  Cluster FD Chitchat World Monitors Listener Select.
 Extraction Language OCaml.
 Extraction "model.ml"
   Byte.of_N Byte.to_N N.add N.mul N.div_eucl N.compare Z.add Z.mul Z.opp Z.compare Z.div_eucl
@@ -18,4 +18,6 @@ Extraction "model.ml"
   Monitors.c02_ok Monitors.c03_ok Monitors.c04_nodes_ok Monitors.c05_own_ok Monitors.c07_delta_ok
   Monitors.digest_excludes Monitors.c12_sets_ok Monitors.c12_after_eval_ok Monitors.c13_watch_ok
   Monitors.c20_ok Monitors.kvs_eqb Monitors.ledger_max Monitors.any_reset
+  Listener.subscribe Listener.unsubscribe Listener.trigger_event Listener.expected_calls
+  Select.select_nodes_for_gossip Select.oracle_valid
   Chitchat.eval_pred NodeState.check_delta_status NodeState.to_mstatus.
